@@ -27,7 +27,7 @@ def main():
         os.makedirs(os.path.join(wt, "out"), exist_ok=True)
         for fn in os.listdir(out):
             if fn.endswith(".py"):
-                src = re.sub(r"/tmp/sa[2345]?/wt_[A-Z0-9]+", wt, open(os.path.join(out, fn)).read())
+                src = re.sub(r"/tmp/sa[2-9]?/wt_[A-Z0-9]+", wt, open(os.path.join(out, fn)).read())
                 open(os.path.join(wt, "out", fn), "w").write(src)
         dpath = os.path.join(wt, "out", os.path.basename(demo))
         r = sh(["/venv/bin/python", dpath], env=env, cwd=wt, timeout=900)
